@@ -13,6 +13,12 @@ CONSTANTS
   Ops = {"CtxDeregister", "DropRef", "Dispatch", "CtxQuit", "ModStop", "ModPause", "Publish", "Broadcast", "Subscribe"}
   CbOps = {"ModStop", "ModPause", "Broadcast"}
   EvalVals = {TRUE}
+  Prios = {"N"}
+  BatchSizes = {}
+  UnstashNs = {}
+  HandlerIds = {}
+  Targets = {"A", "B", "C"}
+  AutoVals = {TRUE, FALSE}
   Senders = {"A", "B", "C"}
   QuitCodes = {0, 1}
   Setup = "loop3"
